@@ -444,6 +444,57 @@ pub fn run_c31(ctx: &Ctx) -> i32 {
             judge_sort(&rep, &sc, &v, i % (if n <= 5 { ctx.tier.pick(60, 10) } else { ctx.tier.pick(1000, 60) }) == 0, thorough);
         });
     }
+    // size sweep: the network's schedule depends on n (parity, powers of two, thresholds between algorithms), so every
+    // length up to 20 and lengths around every power of two up to 64 are sorted on adversarial orders: descending,
+    // rotated-sorted (minimum parked last / maximum parked first), interleaved halves, and random
+    let sweep: Vec<usize> = ctx.tier.pick(
+        vec![1usize, 2, 3, 4, 5, 6, 7, 8, 9, 10, 11, 12, 13, 15, 16, 17, 20, 24, 31, 32, 33],
+        (1usize..=64).collect(),
+    );
+    sweep.par_iter().for_each(|&n| {
+        if ctx.over_budget() {
+            return;
+        }
+        let Some(sc) = SortCircuit::build(n) else {
+            rep.inconclusive(&format!("sort circuit for n={n} did not build"));
+            return;
+        };
+        let mut rng = ctx.sub_rng("sort-sweep", n as u64);
+        let mut base: Vec<D4> = (0..n).map(|_| rand_d4(&mut rng)).collect();
+        base.sort_by(|a, b| a.iter().map(|x| u(*x)).collect::<Vec<_>>().cmp(&b.iter().map(|x| u(*x)).collect::<Vec<_>>()));
+        let mut orders: Vec<Vec<D4>> = vec![];
+        let mut desc = base.clone();
+        desc.reverse();
+        orders.push(desc);
+        if n >= 2 {
+            let mut rot = base.clone();
+            rot.rotate_left(1);
+            orders.push(rot); // minimum parked last
+            let mut rot2 = base.clone();
+            rot2.rotate_right(1);
+            orders.push(rot2); // maximum parked first
+            let (lo, hi) = base.split_at(n / 2);
+            let mut inter: Vec<D4> = vec![];
+            for i in 0..hi.len() {
+                inter.push(hi[i]);
+                if i < lo.len() {
+                    inter.push(lo[i]);
+                }
+            }
+            orders.push(inter);
+        }
+        for _ in 0..ctx.tier.pick(2usize, 6) {
+            let mut sh = base.clone();
+            use rand::seq::SliceRandom;
+            sh.shuffle(&mut rng);
+            orders.push(sh);
+        }
+        for v in orders {
+            judge_sort(&rep, &sc, &v, false, thorough);
+            rep.count("size_sweep_lists");
+        }
+    });
+    rep.set_extra("size_sweep", json!({"lengths": sweep}));
     rep.sample(json!({"n": 2, "inputs": [[0, M32 + 1, 7, P - 2], [0, M32, 7, P - 2]], "expected_first": [0, M32, 7, P - 2]}));
     rep.finish(ctx, ctx.tier.pick(1000, 10000))
 }
